@@ -3,6 +3,7 @@ CONSTANTS
   Threads = {"t1", "t2"}
   Progs <- ProgTable
   Dev = {"callid_unlocked"}
+  ProgSel = {"rd", "wr", "df", "pu", "uid", "uid2"}
   MaxJobs = 1
 INVARIANTS Unique
 CHECK_DEADLOCK FALSE
